@@ -75,7 +75,9 @@ def compare(name, e_in, e_out, env=None, *, ctx=(), side=None, timeout=20, lemma
                        twin=twin, witness={"structural": str(ex)})
     except DenotationError as ex:
         return outcome(name, "inconclusive", detail=f"denotation: {ex}", sample=sample, twin=twin)
-    li = lemmas(den) if lemmas else ()
+    from . import lemmas as _lem
+
+    li, lnames = _lem.instances(diffs)
     r = solve.prove_all_zero(diffs, assumptions, timeout, li, label=name)
     ok, bad = solve.discharge_lemmas(timeout)
     status = r.status
@@ -92,4 +94,4 @@ def compare(name, e_in, e_out, env=None, *, ctx=(), side=None, timeout=20, lemma
             detail += f" at flat component #{i} of {len(diffs)}"
     return outcome(name, status, stage=r.stage, detail=detail, witness=wit, sample=sample,
                    twin=twin, term_size=r.size, lemmas_discharged=ok,
-                   n_components=len(pairs))
+                   n_components=len(pairs), lemma_instances=sorted(set(lnames)) if r.stage == 2 else [])
